@@ -318,8 +318,10 @@ Print Assumptions C20_conc_series_exact.
 
 Lemma nonneg_w1 : nonneg_progs KCounter w1_progs.
 Proof. repeat constructor; simpl; lia. Qed.
+Print Assumptions nonneg_w1.
 Lemma nonneg_w4 : nonneg_progs KCounter w4_progs.
 Proof. repeat constructor; simpl; lia. Qed.
+Print Assumptions nonneg_w4.
 
 (* the same statement is FALSE of the two defective machines: every hypothesis holds, the conclusion fails *)
 Theorem C20_conc_series_exact_refuted :
